@@ -161,6 +161,7 @@ def fCaps := strBytes "caps"
 def fFailReq := strBytes "failReq"
 def fFailRes := strBytes "failRes"
 def fPort := strBytes "port"
+def fEtext := strBytes "etext"
 
 def tokOf (s : Bytes) : Tok :=
   if s == strBytes "request" then .request else if s == strBytes "response" then .response else .other
@@ -261,8 +262,10 @@ structure ProbeSt where
   fq : Bool := false
   fs : Bool := false
   scope : Sl Bytes := Sl.nil
+  /-- class of the error TEXT (the model has no texts: errors are values identified by the leaf) -/
+  etext : Int := 0
 
-def probeFields : List Bytes := [fLabel, fCaps, fFailReq, fFailRes, fScope]
+def probeFields : List Bytes := [fLabel, fCaps, fFailReq, fFailRes, fScope, fEtext]
 
 def probeSet (s : ProbeSt) (f : Nat) (v : DV) : Option ProbeSt :=
   match f with
@@ -270,7 +273,8 @@ def probeSet (s : ProbeSt) (f : Nat) (v : DV) : Option ProbeSt :=
   | 1 => (decString s.caps v).map fun x => { s with caps := x }
   | 2 => (decBool s.fq v).map fun x => { s with fq := x }
   | 3 => (decBool s.fs v).map fun x => { s with fs := x }
-  | _ => (decScope s.scope v).map fun x => { s with scope := x }
+  | 4 => (decScope s.scope v).map fun x => { s with scope := x }
+  | _ => (decInt s.etext v).map fun x => { s with etext := x }
 
 def capsOfStr (s : Bytes) : Caps :=
   if s == strBytes "q" then ⟨true, false⟩ else if s == strBytes "s" then ⟨false, true⟩
